@@ -68,13 +68,13 @@ PINNED_AST = {
     "hasher.py:FileHasher._calculate_root": "4e7eefdaf2c3d084",
     "utils.py:next_power_2": "edf2f49d75b66e79",
     "torrent.py:TorrentFileV2.__init__": "2d55c97eba0bee4e",
-    "torrent.py:TorrentFileV2.assemble": "2efcee2747868431",
+    "torrent.py:TorrentFileV2.assemble": "94252d4b9773b811",
     "torrent.py:TorrentFileV2._traverse": "03790994f32e33bf",
     "torrent.py:TorrentFileHybrid.__init__": "4e736e74ec30688f",
-    "torrent.py:TorrentFileHybrid.assemble": "bc7e10ed69bdd4a3",
+    "torrent.py:TorrentFileHybrid.assemble": "2e65522e46a9e364",
     "torrent.py:TorrentFileHybrid._traverse": "36b7deac77d5fb90",
     "torrent.py:TorrentAssembler.__init__": "ad4d28f4f4b8747f",
-    "torrent.py:TorrentAssembler.assemble": "dc9f5af224baa4a7",
+    "torrent.py:TorrentAssembler.assemble": "7c43ef37a1787487",
     "torrent.py:TorrentAssembler._traverse": "4e82ab8222959110",
 }
 
